@@ -42,6 +42,7 @@ class Ref:
     self.iterations_override = {}
     self.scope = frozenset()
     self.order_specs = order_specs or {}
+    self.cur_guard = True
 
   # ------------------------------------------------------------ dependency analysis
   def _deps(self, pred):
@@ -162,7 +163,9 @@ class Ref:
     rows = []   # (guard, [head values or ('agg', op, payload)])
     for r in rules:
       for g, bind in self.rule_solutions(r):
+        self.cur_guard = g
         rows.append((g, self.head_values(r, bind)))
+      self.cur_guard = True
     if not any(distinct):
       return Rel(cols, [(g, vals) for g, vals in rows])
     # shape and operators come from the head (all rules of a predicate agree)
@@ -215,6 +218,12 @@ class Ref:
       return l
     if op == 'Set':
       return V.agg_set(ms)
+    import re as _re
+    mk = _re.match(r'Arg(Min|Max)([1-9])$', op)
+    if mk:
+      # wrapper idiom ArgMax2(x) = ArgMaxK(x, 2): the k best arguments in value order
+      self.assumptions.append(V.tie_free([(g, p[1]) for g, p in ms]))
+      return V.agg_argbest([(g, p[0], p[1]) for g, p in ms], mk.group(1) == 'Min', int(mk.group(2)))
     if op in ('ArgMin', 'ArgMax'):
       self.assumptions.append(V.tie_free([(g, p[1]) for g, p in ms]))
       l = V.agg_argbest([(g, p[0], p[1]) for g, p in ms], op == 'ArgMin', 1)
@@ -499,11 +508,15 @@ class Ref:
     # plain condition
     out = []
     for g, bind in sols:
+      self.cur_guard = AND(self.outer_guard(), g)
       c = V.to_B(self.ev(p, bind)).true()
       gg = AND(g, c)
       if gg is not False:
         out.append((gg, bind))
     return out, bound
+
+  def outer_guard(self):
+    return True
 
   @staticmethod
   def extend(bind, name, val):
@@ -637,7 +650,9 @@ class Ref:
       f = r.fields[e.name]
       return f if r.null is False else V.ite_val(NOT(r.null), f, V.null_like(f))
     if isinstance(e, Elem):
-      return V.list_element(self.ev(e.e, bind), V.to_S(self.ev(e.idx, bind)))
+      idx = V.to_S(self.ev(e.idx, bind))
+      self.assumptions.append(OR(idx.null, V.LE(0, idx.v)))   # negative index: engine error, outside the claim
+      return V.list_element(self.ev(e.e, bind), idx)
     if isinstance(e, Size):
       return V.list_size(self.ev(e.e, bind))
     if isinstance(e, If):
